@@ -284,6 +284,28 @@ fn targeted() -> Vec<(&'static str, Frame, u8, u32)> {
     v.push(("wide33-midside-side-min", wide_verb(ChannelAssignment::MidSide, false, -(1i64 << 32), i32::MIN), 2, 32));
     v.push(("wide33-leftside-extremes", wide_verb(ChannelAssignment::LeftSide, false, (1i64 << 32) - 1, i32::MIN), 2, 32));
     v.push(("wide33-sideright-extremes", wide_verb(ChannelAssignment::SideRight, true, (1i64 << 32) - 1, i32::MAX), 2, 32));
+    // boundary-directed: a 33-bit side channel whose order-1 LPC recursion (coefficient 1291, shift 0) is solved
+    // BACKWARDS so that its last sample is exactly at an i64 limit, next to other-channel values at the i32 limits:
+    // every addition / subtraction of the stereo reconstruction then sits on its overflow boundary (a random
+    // runaway recursion lands within 2^31 of the limit with probability 2^-32)
+    let wide_chain = |assign: ChannelAssignment, first: bool, t: i64, o: i32| {
+        const C: i64 = 1291;
+        let mut res = vec![0i64; 15];                    // residuals of samples 1..=15, warm-up sample 0 is 0
+        let mut s = t as i128;
+        for k in (12..=15).rev() { let prev = s.div_euclid(C as i128); res[k - 1] = (s - C as i128 * prev) as i64; s = prev; }
+        res[10] = s as i64;                                     // sample 11 = C * 0 + residual
+        let side = SubframeWidth::Wide(Subframe::Lpc { order: NonZero::new(1).unwrap(), warm_up: vec![0i64], precision: SignedBitCount::<15>::try_from(12).unwrap(), shift: 0, coefficients: vec![C as i32], residuals: rice_res(20, res), wasted_bps: 0 });
+        let other = verb(vec![o; 16]);
+        Frame { header: hdr(16, assign, 32, 0), subframes: if first { vec![side, other] } else { vec![other, side] } }
+    };
+    for (an, assign, first) in [("leftside", ChannelAssignment::LeftSide, false), ("sideright", ChannelAssignment::SideRight, true), ("midside", ChannelAssignment::MidSide, false)] {
+        for (tn, t) in [("max", i64::MAX), ("max-1", i64::MAX - 1), ("min", i64::MIN), ("min+1", i64::MIN + 1), ("max-2^31", i64::MAX - (1 << 31)), ("min+2^31", i64::MIN + (1 << 31))] {
+            for (on, o) in [("1", 1i32), ("-1", -1), ("max", i32::MAX), ("min", i32::MIN)] {
+                let name: &'static str = Box::leak(format!("wide33-chain-{}-side-{}-other-{}", an, tn, on).into_boxed_str());
+                v.push((name, wide_chain(assign, first, t, o), 2, 32));
+            }
+        }
+    }
     // wasted bits at the limit: 1 significant bit shifted up by 31
     v.push(("wasted31-const-minus1", Frame { header: hdr(16, mono, 32, 0), subframes: vec![SubframeWidth::Common(Subframe::Constant { block_size: 16, sample: -1, wasted_bps: 31 })] }, 1, 32));
     v.push(("wasted31-fixed1", Frame { header: hdr(16, mono, 32, 0), subframes: vec![SubframeWidth::Common(Subframe::Fixed { order: 1, warm_up: vec![-1], residuals: esc_res(2, vec![1; 15]), wasted_bps: 31 })] }, 1, 32));
